@@ -3,6 +3,7 @@ package main
 import (
 	"fmt"
 	"math/big"
+	"time"
 
 	"github.com/idena-network/idena-go/blockchain/attachments"
 	"github.com/idena-network/idena-go/blockchain/types"
@@ -60,10 +61,20 @@ type rig struct {
 
 func dna(n int64) *big.Int { return sim.Dna(n, 1) }
 
+// ceremony timeline of every world (virtual seconds since genesis): long windows, so that a few extra
+// blocks never leave a period
+const (
+	firstCeremony = 10000
+	periodWindow  = 2000
+)
+
 func newWorld(seed int64) *sim.World {
 	w := sim.NewWorld(seed, nKeys)
 	w.Cons.StatusSwitchRange = 5
 	w.Cons.DelegationSwitchRange = 5
+	w.FirstCeremony = firstCeremony
+	w.ValCfg = &config.ValidationConfig{FlipLotteryDuration: periodWindow * time.Second, ShortSessionDuration: periodWindow * time.Second,
+		LongSessionDuration: periodWindow * time.Second}
 	return w
 }
 
@@ -134,16 +145,28 @@ func flipCidOf(data []byte) []byte {
 
 // buildPopulated: identities in several states, an online validator, a pool with a delegator, an invite,
 // a flip, an embedded contract, several blocks with transactions.
-func buildPopulated(seed int64) *rig {
+func buildPopulated(seed int64, class string) *rig {
 	for try := int64(0); try < 64; try++ {
-		if r := tryPopulated(seed*1000 + try); r != nil {
+		if r := tryPopulated(seed*1000+try, class); r != nil {
 			return r
 		}
 	}
-	panic("no world seed with a passing proposer sortition on the populated head")
+	panic("no world seed with a passing proposer sortition on the head of state class " + class)
 }
 
-func tryPopulated(seed int64) *rig {
+// periodOf: the validation period a state class is in (state.ValidationPeriod) and the block times that lead there.
+var periodTimes = map[string][]int64{
+	"populated": nil,
+	"lottery":   {firstCeremony - periodWindow + 1},
+	"short":     {firstCeremony - periodWindow + 1, firstCeremony},
+	"long":      {firstCeremony - periodWindow + 1, firstCeremony, firstCeremony + periodWindow + 1},
+	"afterlong": {firstCeremony - periodWindow + 1, firstCeremony, firstCeremony + periodWindow + 1, firstCeremony + 2*periodWindow + 1},
+}
+
+var periodWant = map[string]state.ValidationPeriod{"populated": state.NonePeriod, "lottery": state.FlipLotteryPeriod,
+	"short": state.ShortSessionPeriod, "long": state.LongSessionPeriod, "afterlong": state.AfterLongSessionPeriod}
+
+func tryPopulated(seed int64, class string) *rig {
 	w := newWorld(seed)
 	w.Allocs = []sim.Alloc{
 		{Key: kGod, State: state.Verified, Balance: dna(100000), Stake: dna(1000)},
@@ -196,10 +219,33 @@ func tryPopulated(seed int64) *rig {
 	mustAdd(b, w.Tx(sim.TxSpec{From: kVerified, To: &w.Addrs[kFunded], Type: types.SendTx, Amount: dna(3), MaxFee: fee, Nonce: 2}))
 	mineOn([]*sim.Node{b}, b, 1)
 	mineOn([]*sim.Node{b}, b, 0)
-	if ok, _ := b.Chain.GetProposerSortition(); !ok {
+	times, known := periodTimes[class]
+	if !known {
+		panic("unknown state class " + class)
+	}
+	for _, t := range times {
+		blk := b.Propose(t - b.Chain.Head.Time())
+		if err := b.Add(sim.Encode(blk)); err != nil {
+			panic(fmt.Sprintf("world builder: period block refused: %v", err))
+		}
+	}
+	if got := b.App.State.ValidationPeriod(); got != periodWant[class] {
+		panic(fmt.Sprintf("world builder: state class %s is in period %d", class, got))
+	}
+	// a proposal of this node has to get past the proof check: move on until its sortition passes
+	for i := 0; ; i++ {
+		if ok, _ := b.Chain.GetProposerSortition(); ok {
+			break
+		}
+		if i == 40 {
+			return nil
+		}
+		mineOn([]*sim.Node{b}, b, 0)
+	}
+	if got := b.App.State.ValidationPeriod(); got != periodWant[class] {
 		return nil
 	}
-	r := attach("populated", w, b, kVerified)
+	r := attach(class, w, b, kVerified)
 	sender, _ := types.Sender(deployTx)
 	r.contract = env.ComputeContractAddr(deployTx, sender)
 	if b.App.State.GetCodeHash(r.contract) == nil {
